@@ -10,7 +10,7 @@ From UV.Base Require Import Order Cop Res.
 From UV.Gen Require Import Tables.
 From UV.Py Require Import PyStr.
 From UV.Vers Require Import Model.
-From UV.Schemes Require Import Common Generic LegacyOpenssl Gentoo GentooProofs Debian DebianProofs Semver SemverProofs.
+From UV.Schemes Require Import Common Generic LegacyOpenssl Gentoo GentooProofs Debian DebianProofs Semver SemverProofs Gem GemProofs.
 Import ListNotations.
 
 (* one of <, ==, > exactly; <= is < or ==; >= is > or ==; != is not ==  -- for any operators derived from one comparison *)
@@ -43,6 +43,9 @@ Theorem C02_semver_family : forall a b, sv_ok a = true -> sv_ok b = true ->
   semver_ops a b = ops_of (semver_cmp a b) /\ ops_agree (semver_ops a b) = true.
 Proof. intros a b Ha Hb. rewrite (semver_ops_spec a b Ha Hb). split; [reflexivity|apply ops_of_agree]. Qed.
 
+Theorem C02_gem : forall a b, gem_ops a b = ops_of (gem_order a b) /\ ops_agree (gem_ops a b) = true.
+Proof. intros a b. rewrite gem_ops_spec. split; [reflexivity|apply ops_of_agree]. Qed.
+
 Print Assumptions C02_operators_of_a_comparison_agree.
 Print Assumptions C02_single_comparator_constraints.
 Print Assumptions C02_generic.
@@ -50,3 +53,4 @@ Print Assumptions C02_legacy_openssl.
 Print Assumptions C02_gentoo_alpine.
 Print Assumptions C02_deb.
 Print Assumptions C02_semver_family.
+Print Assumptions C02_gem.
